@@ -349,7 +349,7 @@ static void check_payload(int codec, const Bytes &p, int mode, int parts)
 {
     Ctx c;
     c.codec = codec;
-    c.M = gs::markers(codec);
+    c.M = gsref::golden(codec);
     c.payload = &p;
     c.cls = input_class(c.M, p);
     mc::describe("codec=%s payload=%s (%zu bytes, %s) entry group=%s", gs::codec_name(codec),
@@ -384,7 +384,7 @@ static void check_payload(int codec, const Bytes &p, int mode, int parts)
 // (START == STOP alphabets) are replaced by the other family's marker bytes, which are plain data here.
 static std::vector<uint8_t> alphabet(int codec)
 {
-    gs::Markers M = gs::markers(codec);
+    gs::Markers M = gsref::golden(codec);
     std::vector<uint8_t> a;
     auto add = [&](uint8_t c) {
         for (uint8_t x : a)
@@ -396,7 +396,7 @@ static std::vector<uint8_t> alphabet(int codec)
     add(M.start), add(M.stop), add(M.stub), add(M.c_start), add(M.c_stop), add(M.c_stub);
     uint8_t fill[] = {0x00, 0xFF, 'a'};
     std::vector<uint8_t> tail(fill, fill + 3);
-    gs::Markers O = gs::markers(codec == gs::CFG_V1 ? gs::CFG_V0 : gs::CFG_V1);
+    gs::Markers O = gsref::golden(codec == gs::CFG_V1 ? gs::CFG_V0 : gs::CFG_V1);
     uint8_t other[] = {O.start, O.stop, O.stub, O.c_start, O.c_stop, O.c_stub};
     size_t oi = 0;
     while (a.size() + tail.size() < 9 && oi < 6)
@@ -410,8 +410,131 @@ static std::vector<uint8_t> alphabet(int codec)
 
 static int nmodes(int codec) { return codec == gs::LEGACY ? 1 : NMODE; }
 
+// ---- one gstuff_context object, reassigned between calls ------------------------------------------------------
+// The context is a plain value type: a program may keep ONE object and put another alphabet into it (reassignment, a
+// by-value parameter of a helper, a loop copy).  Every call must use the alphabet the object holds NOW.
+// A case = a sequence of four alphabets out of {V1, V0, custom X, custom Y} (all 256) x the way the context travels
+// (same static object reassigned / by-value parameter of one helper) x the encoder entry point.  At each step every
+// payload of length 0..2 over the union of all four alphabets' marker bytes + 'a' is encoded and judged against the
+// alphabet of THAT step: reference decoder, frame structure, real receiver constructed with that alphabet.
+static const gs::Markers &seq_alphabet(int i)
+{
+    static const gs::Markers A[4] = {gsref::golden(gs::CFG_V1), gsref::golden(gs::CFG_V0),
+                                     gs::Markers{0x01, 0x02, 0x03, 0x11, 0x12, 0x13},  // custom X: low values
+                                     gs::Markers{0xB2, 0xA8, 0xAD, 0x5C, 0x8A, 0xAC}}; // custom Y: other alphabets' bytes in other roles
+    return A[i];
+}
+static const char *seq_name[4] = {"V1", "V0", "X(01/02/03)", "Y(B2/A8/AD)"};
+
+static void reassigned_context_case()
+{
+    int first = mc::choose(256);
+    int how = mc::choose(gs::NCTXHOW);
+    int entry = mc::choose(gs::NENTRY);
+    int seq[4] = {first & 3, (first >> 2) & 3, (first >> 4) & 3, (first >> 6) & 3};
+    mc::describe("one context object, alphabets %s -> %s -> %s -> %s, %s, entry %s", seq_name[seq[0]], seq_name[seq[1]], seq_name[seq[2]],
+                 seq_name[seq[3]], how == gs::SAME_OBJECT_REASSIGNED ? "same static object reassigned" : "by-value parameter of one helper",
+                 gs::entry_name(entry));
+    if (seq[0] != seq[1] || seq[1] != seq[2] || seq[2] != seq[3])
+        mc::nontrivial();
+    static std::vector<uint8_t> U;
+    if (U.empty())
+    {
+        for (int a = 0; a < 4; a++)
+        {
+            const gs::Markers &m = seq_alphabet(a);
+            for (uint8_t c : {m.start, m.stop, m.stub})
+            {
+                bool dup = false;
+                for (uint8_t x : U)
+                    dup |= x == c;
+                if (!dup)
+                    U.push_back(c);
+            }
+        }
+        U.push_back('a');
+    }
+    gs::ctx_flush(); // the case does not depend on what earlier cases of this process left inside the library
+    uint64_t n = 0;
+    std::string base = mc::fmt("C04.reassigned_context.%s.%s.", how == gs::SAME_OBJECT_REASSIGNED ? "same_object" : "by_value", gs::entry_name(entry));
+    for (int step = 0; step < 4; step++)
+    {
+        const gs::Markers &M = seq_alphabet(seq[step]);
+        for (int len = 0; len <= 2; len++)
+            for (size_t i0 = 0; i0 < (len >= 1 ? U.size() : 1); i0++)
+                for (size_t i1 = 0; i1 < (len >= 2 ? U.size() : 1); i1++)
+                {
+                    Bytes p;
+                    if (len >= 1)
+                        p.push_back(U[i0]);
+                    if (len >= 2)
+                        p.push_back(U[i1]);
+                    n++;
+                    mc::crash_context("C04.reassigned_context.%s.memory", gs::entry_name(entry));
+                    Bytes f = gs::encode_ctx(M, how, entry, p.data(), p.size(), p.size() / 2);
+                    mc::crash_context("C04.harness");
+                    std::string where = mc::fmt("step %d (alphabet %s) payload=%s frame=%s", step, seq_name[seq[step]], gsref::hex(p).c_str(),
+                                                gsref::hex(f).c_str());
+                    if (f.size() > 2 * p.size() + 4 || f.empty())
+                    {
+                        mc::violation(base + "frame.length", "%s", where.c_str());
+                        continue;
+                    }
+                    gsref::Decoded d = gsref::decode_frame(M, f);
+                    if (!d.ok)
+                    {
+                        mc::violation(base + "frame." + d.why, "%s", where.c_str());
+                        continue;
+                    }
+                    if (d.payload != p)
+                    {
+                        mc::violation(base + "refdecode.payload_differs", "%s reference decoder got %s", where.c_str(), gsref::hex(d.payload).c_str());
+                        continue;
+                    }
+                    int cap = (int)p.size() + 2;
+                    Exact buf((size_t)cap);
+                    mc::crash_context("C04.reassigned_context.receiver.memory");
+                    std::unique_ptr<gs::Receiver> r(gs::make_receiver_markers(M, buf.p, cap));
+                    bool okr = true;
+                    for (size_t i = 0; i < f.size() && okr; i++)
+                    {
+                        gs::Status st = r->feed(f[i]);
+                        bool last = i + 1 == f.size();
+                        if (last != (st == gs::NEWPACKAGE))
+                        {
+                            mc::violation(base + "receiver.packet_not_exactly_on_last_byte", "%s: byte %zu answered %s", where.c_str(), i, gs::status_name(st));
+                            okr = false;
+                        }
+                        else if (last && r->packet() != p)
+                        {
+                            mc::violation(base + "receiver.content", "%s: delivered %s", where.c_str(), gsref::hex(r->packet()).c_str());
+                            okr = false;
+                        }
+                    }
+                    mc::crash_context("C04.harness");
+                    mc::outcome(mc::fmt("reassigned %s expansion=%d", seq_name[seq[step]], (int)f.size() - (int)p.size()));
+                }
+    }
+    mc::more_cases(n - 1, (seq[0] != seq[1] || seq[1] != seq[2] || seq[2] != seq[3]) ? n - 1 : 0);
+}
+
+// the library's own context objects / macros must hold the protocol's constants (everything else here is judged
+// against the pinned constants, so a drifted library alphabet shows up as undecodable frames AND here, by name)
+static void alphabet_constants_case()
+{
+    int codec = mc::choose(gs::NCODEC);
+    mc::describe("alphabet exposed by the library for %s vs. the protocol constants", gs::codec_name(codec));
+    mc::nontrivial();
+    std::string d = gsref::alphabet_difference(codec);
+    mc::outcome(gs::codec_name(codec));
+    if (!d.empty())
+        mc::violation(mc::fmt("C04.%s.alphabet_constants", gs::codec_name(codec)), "%s: %s", gs::codec_name(codec), d.c_str());
+}
+
 MC_INIT
 {
+    mc::add_check("alphabet_constants", alphabet_constants_case);
+    mc::add_check("reassigned_context", reassigned_context_case);
     for (int codec = 0; codec < gs::NCODEC; codec++)
     {
         // (a) all payloads of length 0..5 (quick) / 0..6 (thorough) over the 9-symbol marker-rich alphabet
@@ -457,7 +580,7 @@ MC_INIT
         mc::add_check(mc::fmt("large_payloads.%s", gs::codec_name(codec)), [codec] {
             int first = mc::choose(48 * 3);
             int n = 253 + first / 3, pattern = first % 3;
-            gs::Markers M = gs::markers(codec);
+            gs::Markers M = gsref::golden(codec);
             Bytes p;
             for (int i = 0; i < n; i++)
                 p.push_back(pattern == 0 ? (uint8_t)(i * 7 + 1) : pattern == 1 ? (uint8_t)'a' : (i % 3 == 0 ? M.start : i % 3 == 1 ? M.stub : M.stop));
